@@ -64,7 +64,7 @@ CLAIMED['C20'] = dict(
          'non-empty objects of the category from the start id on, within max(1,#objects) requests, by induction on the chain), '
          'chain_terminates (any start id), individual_access, and chain_245_counterexample / C20_counterexample (a 245-byte object '
          'is never delivered: the full statement is false); the model is compared page by page with ServerDecoder -> execute -> '
-         'encode -> ClientDecoder of the real code on generated identities each run.',
+         'encode -> ClientDecoder of the real code on generated identities each run. Identities with up to all 135 object ids populated by 0..3-byte values are part of the generated and of the deterministic cases.',
     design='6/C20', technique='Lean 4 proof about a model of the paging chain + differential correspondence',
     note='Modelled not verified: dict insertion order, struct.pack of bytes. Identity values are byte strings (ASCII str); '
          'non-ASCII str values are a recorded known finding checked by direct predicates only.')
@@ -77,7 +77,7 @@ CLAIMED['C19'] = dict(
          'network order, little word order reverses the words, little byte order swaps the bytes of each word), '
          'builder_rejects_out_of_range, roundtrip_coils (through to_coils/fromCoils, every order; repaired); counterexample '
          'roundtrip_full_counterexample (bit group not in whole bytes). The model is compared with the real builder/decoder '
-         'on generated sequences and raw decoder runs each run, and the real bytes/registers with the Lean spec image.',
+         'on generated sequences and raw decoder runs each run, and the real bytes/registers with the Lean spec image. Read-outs are observers: to_registers()/to_coils()/build() in the middle of adding values and at the end leave to_string() unchanged.',
     design='6/C19', technique='Lean 4 proof (builder/decoder model vs conventional register image) + differential correspondence',
     note='Numbers are exchanged as bit patterns; Python number <-> pattern is struct (trusted; NaNs as struct reproduces them). '
          'Known finding: bits-zero-fill.')
@@ -191,7 +191,7 @@ CLAIMED['C10'] = dict(
          'broadcast_no_response, broadcast_unit_accepted, other_requests_leave_tables, unit0_ordinary_without_broadcast, single_mode_any_unit. All seven real front-ends '
          'are run each run on hosted sets incl. 0/255 with per-unit dumps after every request; final tables are checked against the '
          'per-unit projection of the history executed by the register-file spec. Histories include units removed from the context at run time '
-         '(del context[u]) and units ATTACHED at run time to a server that was built — by the front-end\'s real constructor — around a context without units; the model carries the unit list a handler read before its blocking read (Conn.snap), as the sync TCP and asyncio handlers do.',
+         '(del context[u]) and units ATTACHED at run time to a server that was built — by the front-end\'s real constructor — around a context without units; the model carries the unit list a handler read before its blocking read (Conn.snap), as the sync TCP and asyncio handlers do. Noisy lines: the head of a frame for one hosted unit followed by a complete request to another - no unit changes unless a complete valid frame addresses it.',
     design='6/C10', technique='Lean 4 proof over the server front-end model (unit routing) + differential correspondence + projection oracle',
     note=SERVER_NOTE)
 CLAIMED['C12'] = dict(
